@@ -21,6 +21,7 @@ import YataProofs.Indicators.MFIRange
 import YataProofs.Indicators.TSIndRange
 import YataProofs.Indicators.StochRange
 import YataProofs.Indicators.Realises2
+import YataProofs.Indicators.CMFRun
 import YataProofs.Numeric.TSIRange
 import YataProofs.Numeric.MeanAbsDev
 namespace Yata.C12
@@ -154,6 +155,14 @@ theorem C12_hull_kinds (n : Nat) (hn : 0 < n) (v a : ℚ) (h0 : 0 ≤ a) (h1 : a
     HullFn v (fun h => Spec.wma n v h) ∧ HullFn v (fun h => Spec.emaRec (1 / (n : ℚ)) v h) :=
   ⟨hullFn_sma n hn v, hullFn_ema a v h0 h1, hullFn_wma n hn v, hullFn_rma n hn v⟩
 
+/-- Chaikin money flow over whole streams, from its constructor: candles with low ≤ close ≤ high and volume ≥ 0 — no step
+    panics, |Σ CLV·volume| ≤ Σ volume, value in [−1, 1] wherever the window's total volume is not zero -/
+theorem C12_cmf_reachable {P size : Nat} (k0 : Candle ℚ) (hk0 : goodCandle k0) (s0 : CMF) (h0 : CMF.init P size k0 = .ok s0)
+    (cs : List (Candle ℚ)) (hg : ∀ c ∈ cs, goodCandle c) :
+    ∃ outs s', runM CMF.vals s0 cs = .ok (outs, s') ∧ outs.length = cs.length ∧
+      ∀ o ∈ outs, ∃ num den κ1 κ2, o = [.quot num den κ1 κ2 .vol [] none] ∧ |num| ≤ den ∧
+        (den ≠ 0 → -1 ≤ num / den ∧ num / den ≤ 1) := CMF.run_range k0 hk0 s0 h0 cs hg
+
 theorem C12_tr_nonneg (c : Candle ℚ) (p : ℚ) (h : c.low ≤ c.high) : 0 ≤ c.trClose p := tr_nonneg c p h
 
 theorem C12_clv_range (c : Candle ℚ) (h1 : c.low ≤ c.close) (h2 : c.close ≤ c.high) : -1 ≤ c.clv ∧ c.clv ≤ 1 :=
@@ -189,3 +198,4 @@ end Yata.C12
 #print axioms Yata.C12.C12_stochastic_reachable
 #print axioms Yata.C12.C12_rsi_reachable
 #print axioms Yata.C12.C12_hull_kinds
+#print axioms Yata.C12.C12_cmf_reachable
